@@ -1,4 +1,4 @@
-import Hive.Proofs.WorkerPoolLock
+import Hive.Proofs.WorkerPoolLockOrder
 import Hive.Gen.C16_Skel
 /-!
 # C16 — lock-script obligations over the regenerated skeletons
@@ -169,6 +169,65 @@ followed by its deferred unlock and there is no explicit unlock: the lock is rel
 or the function itself panics (seeded change r6-2: the panicking reject path left the read lock held). -/
 theorem C16_lockscript_defer_discipline : env.fns.all (fun f => deferDiscipline (s "w.mutex") f.body) = true := by
   decide +kernel
+
+/-! ## No deadlock on the mutexes, for any number of goroutines of a pool -/
+
+/-- Rank of a mutex (0 for a mutex that is not in the table: it can only be taken with nothing held). -/
+def rk (m : Str) : Nat := (rankOf ranks m).getD 0
+
+/-- The lock operations of an entry point, deferred unlocks made explicit. -/
+def lockOps (r : String) : List LOp := linearize (script env r) []
+
+/-- **Regenerated obligation**: the lock operations of every entry point are rank-ordered, balanced and end with nothing
+held. -/
+theorem roots_ordered : ∀ r ∈ roots, ordered rk [] (lockOps r) = true := by decide +kernel
+
+/-- What `Submit` does to the locks (non-vacuity of the theorem below: three nested acquisitions, released in reverse
+order by the deferred unlocks). -/
+theorem C16_lockscript_submit_ops_example :
+    lockOps "Submit" =
+      [.acq (s "w.mutex"), .acq (s "w.PendingTasksCounter.valueMutex"), .acq (s "w.PendingTasksCounter.subscribersMutex"),
+       .rel (s "w.PendingTasksCounter.subscribersMutex"), .rel (s "w.PendingTasksCounter.valueMutex"), .rel (s "w.mutex"),
+       .acq (s "w.Queue.mutex"), .rel (s "w.Queue.mutex")] := by
+  decide +kernel
+
+/-- **The goroutines of a pool cannot deadlock on its mutexes.**  Take ANY number of goroutines, each executing the lock
+operations of any entry point (`Start`, `Submit`, `Shutdown`, `IsRunning`, `WorkerCount`, the dispatcher, a worker — with
+everything they call inlined), under exclusive, non-reentrant lock semantics (`RLock` treated like `Lock`).  Every
+reachable configuration is either final — all scripts finished, nothing held — or has a successor: no interleaving ever
+leaves the goroutines waiting for each other's mutexes.  (Generic theorem `lock_deadlock_free` over rank-ordered scripts +
+the regenerated obligation `roots_ordered`.  Waiting on conditions / channels is outside this theorem: it happens with no
+foreign lock held — `C16_lockscript_no_wait_under_lock`, the report's `chanUnderLock` — and its liveness is
+`C16_shutdown_terminates`.) -/
+theorem C16_lockscript_deadlock_free (rs : List String) (hrs : ∀ r ∈ rs, r ∈ roots) (c : List LThr)
+    (hr : LReach (rs.map (fun r => (([] : List Str), lockOps r))) c) :
+    (∀ t ∈ c, t.2 = [] ∧ t.1 = []) ∨ ∃ c', LStep c c' := by
+  apply lock_deadlock_free rk _ c _ hr
+  intro t ht
+  obtain ⟨r, hr', rfl⟩ := List.mem_map.mp ht
+  exact roots_ordered r (hrs r hr')
+
+/-- The rank order is necessary for this argument: two goroutines taking two mutexes in opposite orders (the code before
+a0dbad3: `Shutdown` signalling the queue under the pool lock vs. the dispatcher) reach a configuration in which neither can
+move. -/
+def abbaA : LThr := ([], [.acq (s "w.mutex"), .acq (s "w.Queue.mutex"), .rel (s "w.Queue.mutex"), .rel (s "w.mutex")])
+def abbaB : LThr := ([], [.acq (s "w.Queue.mutex"), .acq (s "w.mutex"), .rel (s "w.mutex"), .rel (s "w.Queue.mutex")])
+def abbaStuck : List LThr :=
+  [([s "w.mutex"], [.acq (s "w.Queue.mutex"), .rel (s "w.Queue.mutex"), .rel (s "w.mutex")]),
+   ([s "w.Queue.mutex"], [.acq (s "w.mutex"), .rel (s "w.mutex"), .rel (s "w.Queue.mutex")])]
+
+theorem C16_lockscript_abba_deadlock_witness :
+    LReach [abbaA, abbaB] abbaStuck ∧ ordered rk [] abbaA.2 = false ∧ ¬ ∃ c', LStep abbaStuck c' := by
+  refine ⟨?_, by decide +kernel, ?_⟩
+  · have s1 : LStep [abbaA, abbaB] [([s "w.mutex"], abbaA.2.tail), abbaB] :=
+      LStep.acq [] [abbaB] [] (s "w.mutex") abbaA.2.tail (by decide +kernel)
+    have s2 : LStep [([s "w.mutex"], abbaA.2.tail), abbaB] abbaStuck :=
+      LStep.acq [([s "w.mutex"], abbaA.2.tail)] [] [] (s "w.Queue.mutex") abbaB.2.tail (by decide +kernel)
+    exact LReach.step (LReach.step (LReach.refl _) s1) s2
+  · rintro ⟨c', hstep⟩
+    have := canStep_of_step _ _ hstep
+    revert this
+    decide +kernel
 
 /-! ## Witnesses: the scan finds the historical and the seeded defects -/
 
